@@ -6,7 +6,7 @@ import ast
 
 from sa import tables as T
 from sa.report import AnalysisError
-from sa.srcmodel import unparse, walk_no_nested, dotted
+from sa.srcmodel import unparse, walk_no_nested, dotted, calls_in
 
 
 def _yield_op(stmts):
@@ -230,3 +230,75 @@ def run_p9(chk, P9, repo):
                                           "cannot be parsed")
     if n < 2:
         raise AnalysisError(f'P9: only {n} child filters found')
+
+
+def run_p10_p11(chk, repo):
+    P10 = chk.rule('P10', 'new record text: case conversion is applied to numbers only, never to text that contains a parameter '
+                          'name', floor=1)
+    P11 = chk.rule('P11', 'the "all members of (value)xn equal?" test looks at every per-member list that was collected (values '
+                          'and FIX flags)', floor=1)
+    um = repo.module('pharmpy.model.external.nonmem.update')
+    n10 = 0
+    for fname, f in um.functions.items():
+        if not fname.startswith(('create_', 'update_')):
+            continue
+        # variables whose text contains a `.name` interpolation (flow-insensitive)
+        named = set()
+        changed = True
+        while changed:
+            changed = False
+            for n in walk_no_nested(f.node):
+                tgt, val = None, None
+                if isinstance(n, ast.Assign) and isinstance(n.targets[0], ast.Name):
+                    tgt, val = n.targets[0].id, n.value
+                elif isinstance(n, ast.AugAssign) and isinstance(n.target, ast.Name):
+                    tgt, val = n.target.id, n.value
+                if tgt is None or tgt in named:
+                    continue
+                has_name = any(isinstance(a, ast.Attribute) and a.attr == 'name' for a in ast.walk(val)) \
+                    or any(isinstance(x, ast.Name) and x.id in named for x in ast.walk(val))
+                # a value that is itself upper-cased text of a number is not a name carrier
+                if has_name:
+                    named.add(tgt)
+                    changed = True
+        for c in calls_in(f.node):
+            if isinstance(c.func, ast.Attribute) and c.func.attr in ('upper', 'lower', 'title', 'capitalize'):
+                n10 += 1
+                recv = c.func.value
+                bad = any(isinstance(a, ast.Attribute) and a.attr == 'name' for a in ast.walk(recv)) \
+                    or any(isinstance(x, ast.Name) and x.id in named for x in ast.walk(recv))
+                chk.instance(P10, f'{fname}: `{unparse(c)[:60]}` applied to text without a parameter name: {not bad}')
+                if bad:
+                    chk.violation(P10, um.rel, fname, unparse(c)[:100],
+                                  'the case of the name comment is changed together with the number: the parameter is re-read '
+                                  'under another name', line=c.lineno,
+                                  witness="an omega named iiv_cl and create_joint_distribution: the new BLOCK record says "
+                                          "'; IIV_CL'")
+    if n10 < 1:
+        raise AnalysisError(f'P10: no case conversion found in the create_*/update_* functions')
+    om = repo.module('pharmpy.model.external.nonmem.records.omega_record')
+    f = om.classes['OmegaRecord'].methods.get('update')
+    n11 = 0
+    for body in [n.body for n in ast.walk(f.node) if isinstance(n, (ast.For, ast.If, ast.FunctionDef))] + \
+                [n.orelse for n in ast.walk(f.node) if isinstance(n, (ast.For, ast.If))]:
+        for i, s_ in enumerate(body):
+            if not isinstance(s_, ast.For):
+                continue
+            lists = {c.func.value.id for c in ast.walk(s_) if isinstance(c, ast.Call) and isinstance(c.func, ast.Attribute)
+                     and c.func.attr == 'append' and isinstance(c.func.value, ast.Name) and c.func.value.id.startswith('new_')}
+            if len(lists) < 2:
+                continue
+            nxt = next((x for x in body[i + 1:] if isinstance(x, ast.If)), None)
+            if nxt is None or 'count' not in unparse(nxt.test) and 'set(' not in unparse(nxt.test) and 'all(' not in unparse(nxt.test):
+                continue
+            n11 += 1
+            used = {x.id for x in ast.walk(nxt.test) if isinstance(x, ast.Name)} & lists
+            ok = used == lists
+            chk.instance(P11, f'OmegaRecord.update: per-member lists {sorted(lists)}; equality test uses {sorted(used)}: {ok}')
+            if not ok:
+                chk.violation(P11, om.rel, f.qualname, f'if {unparse(nxt.test)[:90]}',
+                              f'the repeat is kept as (value)xn although {sorted(lists - used)} may differ between its members',
+                              line=nxt.lineno,
+                              witness="$OMEGA 0.25 (0.16)x3, fix only OMEGA_3_3: the text is unchanged and FIX is lost")
+    if n11 == 0:
+        raise AnalysisError('P11: per-member collection followed by an equality test not found in OmegaRecord.update')
